@@ -949,11 +949,19 @@ func splitInlineBox(context *layoutContext, box_ Box, positionX, maxX, bottomSpa
 						if last == nil || isNilBox(last) || !last.Box().IsInNormalFlow() {
 							continue
 						}
-						if lastBox := last.Box(); pr.Is(lastBox.Width) && pr.Is(lastBox.MarginLeft) && pr.Is(lastBox.MarginRight) &&
-							pr.Is(lastBox.PaddingLeft) && pr.Is(lastBox.PaddingRight) {
-							positionX = lastBox.PositionX + lastBox.MarginWidth()
-							break
+						// every in-flow child kept in children went through splitInlineLevel;
+						// used values not resolved yet are read as 0
+						lastBox := last.Box()
+						v := func(m pr.MaybeFloat) pr.Float {
+							if m == nil {
+								return 0
+							}
+							return m.V()
 						}
+						positionX = lastBox.PositionX + v(lastBox.Width) +
+							v(lastBox.MarginLeft) + lastBox.BorderLeftWidth + v(lastBox.PaddingLeft) +
+							v(lastBox.PaddingRight) + lastBox.BorderRightWidth + v(lastBox.MarginRight)
+						break
 					}
 					break
 				}
